@@ -5,9 +5,11 @@
 package uasc
 
 import (
+	"bytes"
 	"crypto/rsa"
 	"encoding/binary"
 
+	"github.com/gopcua/opcua/errors"
 	"github.com/gopcua/opcua/ua"
 	"github.com/gopcua/opcua/uapolicy"
 )
@@ -47,6 +49,18 @@ func (s *SecureChannel) VerifySessionSignature(cert, nonce, signature []byte) er
 	remoteX509Cert, err := uapolicy.ParseCertificate(cert)
 	if err != nil {
 		return err
+	}
+	// the certificate the server presents for the session must be the one
+	// the secure channel was opened with: a signature made with the key of
+	// any other certificate proves nothing about the peer of this channel.
+	if len(s.cfg.RemoteCertificate) > 0 {
+		chanCert, err := uapolicy.ParseCertificate(s.cfg.RemoteCertificate)
+		if err != nil {
+			return err
+		}
+		if !bytes.Equal(chanCert.Raw, remoteX509Cert.Raw) {
+			return errors.Errorf("session server certificate differs from the certificate of the secure channel")
+		}
 	}
 	remoteKey := remoteX509Cert.PublicKey.(*rsa.PublicKey)
 
